@@ -50,3 +50,7 @@ func (me multiError) Error() string {
 	}
 	return sb.String()
 }
+
+// Unwrap returns the constituent errors, for use with [errors.Is] and
+// [errors.As] and by code that needs to examine each error.
+func (me multiError) Unwrap() []error { return me }
